@@ -281,10 +281,12 @@ class SyncGen:
             if "atom" in self.feats: c.append("atom")
             if "cv" in self.feats: c += ["cvwait", "cvnotify"]
             if "chan" in self.feats: c.append("send")
+            if "yieldcs" in self.feats: c += ["yield", "yield"]
             if not c:
                 break
             w = rng.choice(c)
-            if w == "cell": out.append(wr("c_" + m))
+            if w == "yield": out.append(I("yield"))
+            elif w == "cell": out.append(wr("c_" + m))
             elif w == "atom": out.append(self.atom_op())
             elif w == "cvwait": out.append(I("cvwait", "cv", o2=m))
             elif w == "cvnotify": out.append(I(rng.choice(["notify1", "notifyall"]), "cv"))
@@ -359,10 +361,12 @@ class SyncGen:
                     tb.guarded(I("trylock", m), self.inner_ops(tb, m, rng.choice([0, 1])), I("unlock", m))
                 elif w == "read":
                     tb.add(I("read", "l"))
+                    if "yieldcs" in self.feats and rng.random() < 0.6: tb.add(I("yield"))
                     if "cell" in self.feats: tb.add(rd("c_l"))
                     tb.add(I("unlockr", "l"))
                 elif w == "write":
                     tb.add(I("write", "l"))
+                    if "yieldcs" in self.feats and rng.random() < 0.4: tb.add(I("yield"))
                     if "cell" in self.feats: tb.add(wr("c_l"))
                     tb.add(I("unlockw", "l"))
                 elif w == "tryrw":
@@ -495,7 +499,9 @@ def waived(p):
     if "tryrecv" in ops:
         w["complete"] = "F9"        # try_recv on an empty channel is no branch point
     if ops & {"acount", "agetmut", "aunwrap"}:
-        w["complete"] = "F14"       # Arc inspections: single last-access slot per class
+        w["complete"] = "F14"
+    if "yield" in ops:
+        w["complete"] = "yield"     # yield_now deprioritises the thread: which schedules are explored is C18's subject, not claimed here       # Arc inspections: single last-access slot per class
     return w
 
 
@@ -653,6 +659,13 @@ def blocking_shapes():
     A(P("chan-lock-cycle", [spawn(2), L("lock", "m"), L("recv", "ch"), L("unlock", "m"), join(2), L("droprx", "ch")],
         CS("m", L("send", "ch", v=1))))
     A(P("await-never-deadlock-free", SJ(2) + JJ(2), [st("x", 1, "rel")], [await_("x", "acq")]))
+    # a parked thread is not a waiter of the object it touched last
+    A(P("park-after-mutex-nounpark", SJ(2) + JJ(2), CS("m") + [L("park")], CS("m", ld("x"))))
+    A(P("park-after-mutex-nounpark-2", SJ(2) + JJ(2), CS("m", ld("x")) + [L("park")], CS("m") + CS("m")))
+    A(P("park-after-rw-nounpark", SJ(2) + JJ(2), [L("read", "l"), L("unlockr", "l"), L("park")], [L("write", "l"), ld("x"), L("unlockw", "l")]))
+    A(P("park-after-send-nounpark", [spawn(2), spawn(3), L("recv", "ch"), L("recv", "ch"), join(2), join(3), L("droprx", "ch")],
+        [L("send", "ch", v=1), L("park")], [L("send", "ch", v=2)]))
+    A(P("park-after-notify-nounpark", [spawn(2), spawn(3), L("nwait", "nt"), join(2), join(3)], [L("notify", "nt"), L("park")], [L("notify", "nt")]))
     # --- shapes of the open findings F5 / F8 / F10 (park token vs other blocking)
     A(P("F5-unpark-thread-in-join", [spawn(2), join(2)], [unpark(1)]))
     A(P("F5-unpark-thread-in-lock", [spawn(2), spawn(3), join(2), join(3)], CS("m", ld("x"), unpark(3)), CS("m", ld("x"))))
@@ -697,6 +710,18 @@ def lock_shapes():
     A(P("rw-write-3", SJ(3) + JJ(3), [L("write", "l"), wr("c_l"), L("unlockw", "l")], [L("write", "l"), wr("c_l"), L("unlockw", "l")],
         [L("write", "l"), wr("c_l"), L("unlockw", "l")]))
     A(P("handover-chain", SJ(3) + JJ(3), CS("m", wr("c"), st("x", 1)), CS("m", ld("x"), wr("c")), CS("m", ld("x"), rd("c"))))
+    # a yield inside the critical section is the only way to make loom overlap sections / observe a held lock
+    Y = I("yield")
+    A(P("rw-overlap-readers-then-writer", SJ(3) + JJ(3), [L("read", "l"), Y, rd("c_l"), L("unlockr", "l")],
+        [L("read", "l"), Y, rd("c_l"), L("unlockr", "l")], [L("write", "l"), wr("c_l"), L("unlockw", "l")]))
+    A(P("rw-overlap-readers-writer-first", SJ(3) + JJ(3), [L("read", "l"), rd("c_l"), Y, L("unlockr", "l")],
+        [L("read", "l"), Y, rd("c_l"), L("unlockr", "l")], [L("write", "l"), Y, wr("c_l"), L("unlockw", "l")]))
+    A(P("trylock-held-yield", SJ(2) + JJ(2), CS("m", Y, wr("c_m")), [L("trylock", "m"), br(1, 1, 2), wr("c_m"), L("unlock", "m")]))
+    A(P("tryread-held-yield", SJ(2) + JJ(2), [L("write", "l"), Y, wr("c_l"), L("unlockw", "l")],
+        [L("tryread", "l"), br(1, 1, 2), rd("c_l"), L("unlockr", "l")]))
+    A(P("trywrite-readers-yield", SJ(3) + JJ(3), [L("read", "l"), Y, rd("c_l"), L("unlockr", "l")], [L("read", "l"), Y, rd("c_l"), L("unlockr", "l")],
+        [L("trywrite", "l"), br(1, 1, 2), wr("c_l"), L("unlockw", "l")]))
+    A(P("mutex-3-yield", SJ(3) + JJ(3), CS("m", Y, wr("c_m")), CS("m", wr("c_m"), Y), CS("m", Y, wr("c_m"), Y)))
     return out
 
 
@@ -704,7 +729,7 @@ def locks(tier, seed):
     rng = random.Random(seed * 257 + 13)
     progs = lock_shapes()
     mixes = [["mutex", "cell"], ["mutex", "try", "cell", "atom"], ["rw", "try", "cell", "atom"], ["mutex", "rw", "cell"],
-             ["mutex", "rw", "try", "cell", "atom"]]
+             ["mutex", "rw", "try", "cell", "atom"], ["rw", "cell", "yieldcs"], ["mutex", "rw", "try", "cell", "yieldcs"]]
     per = 8 if tier == "quick" else 100
     for feats in mixes:
         for k in range(per):
